@@ -14,6 +14,7 @@ import (
 	metav1 "k8s.io/apimachinery/pkg/apis/meta/v1"
 	"k8s.io/apimachinery/pkg/util/intstr"
 
+	meshconfig "istio.io/api/mesh/v1alpha1"
 	networking "istio.io/api/networking/v1alpha3"
 	security "istio.io/api/security/v1beta1"
 	typev1beta1 "istio.io/api/type/v1beta1"
@@ -71,7 +72,9 @@ func (g *mgen) node0() {
 		Labels: map[string]string{"topology.kubernetes.io/region": "r1", "topology.kubernetes.io/zone": "z1"}}})
 }
 
-func httpPort() *networking.ServicePort { return &networking.ServicePort{Number: 80, Name: "http", Protocol: "HTTP"} }
+func httpPort() *networking.ServicePort {
+	return &networking.ServicePort{Number: 80, Name: "http", Protocol: "HTTP"}
+}
 
 func simpleRoute(dest string) *networking.HTTPRoute {
 	return &networking.HTTPRoute{Route: []*networking.HTTPRouteDestination{{Destination: &networking.Destination{Host: dest}, Weight: 100}}}
@@ -247,6 +250,66 @@ func init() {
 			{Destination: &networking.Destination{Host: "ext2.example.com", Port: &networking.PortSelector{Number: 80}}, Weight: 30},
 			{Destination: &networking.Destination{Host: "*.wild.example.com", Port: &networking.PortSelector{Number: 8080}}, Weight: 50}}}
 		g.addCfg("virtualservice", g.meta(gvk.VirtualService, "vs0", rootNS), &networking.VirtualService{Hosts: []string{"db.example.com"}, Http: []*networking.HTTPRoute{r}})
+	}
+}
+
+// witnessMeshConfigs: mesh-wide settings of the witness meshes that need other than the defaults.
+var witnessMeshConfigs = map[string]func(m *meshconfig.MeshConfig){
+	"http-proxy-several-ports": func(m *meshconfig.MeshConfig) { m.ProxyHttpPort = 15002 },
+}
+
+func init() {
+	// C17-15: a route configuration for all ports (the mesh-wide http_proxy listener, an HTTP_PROXY or unix domain
+	// socket egress listener of a Sidecar): a VirtualService on a service with several HTTP ports gave one virtual host
+	// wrapper per port in map iteration order; the virtual hosts claim their domains first come first served and the
+	// port-less domain survives only on port 80, so "ext1.example.com" was routed on some pushes and not on others.
+	witnessMeshes["http-proxy-several-ports"] = func(g *mgen) {
+		g.addCfg("serviceentry", g.meta(gvk.ServiceEntry, "se", "default"), &networking.ServiceEntry{
+			Hosts: []string{"ext1.example.com"}, Resolution: networking.ServiceEntry_DNS,
+			Ports: []*networking.ServicePort{httpPort(), {Number: 8080, Name: "http-2", Protocol: "HTTP"}, {Number: 8081, Name: "http-3", Protocol: "HTTP"}, {Number: 9080, Name: "http-4", Protocol: "HTTP"}}})
+		g.addCfg("virtualservice", g.meta(gvk.VirtualService, "vs", "default"), &networking.VirtualService{Hosts: []string{"ext1.example.com"}, ExportTo: []string{"*"},
+			Http: []*networking.HTTPRoute{simpleRoute("ext1.example.com")}})
+		g.addCfg("sidecar", g.meta(gvk.Sidecar, "sc", "ns1"), &networking.Sidecar{Egress: []*networking.IstioEgressListener{
+			{Port: &networking.SidecarPort{Number: 3128, Protocol: "HTTP_PROXY", Name: "http-proxy"}, Bind: "127.0.0.1", Hosts: []string{"*/*"}},
+			{Hosts: []string{"*/*"}}}})
+	}
+	// Review round 2 (M2): egress listeners naming only exact, namespaced hosts take the fast path servicesForExactHosts,
+	// which collects the candidates while ranging over two maps and relies on SortServicesByCreationTime afterwards.
+	witnessMeshes["sidecar-exact-hosts"] = func(g *mgen) {
+		for i, hn := range [][2]string{{"ext1.example.com", "default"}, {"ext2.example.com", "ns1"}, {"api.example.com", "default"}, {"db.example.com", "ns2"}, {"www.example.com", "ns1"}, {"www.wild.example.com", "ns2"}} {
+			g.addCfg("serviceentry", g.meta(gvk.ServiceEntry, "se"+strconv.Itoa(i), hn[1]), &networking.ServiceEntry{
+				Hosts: []string{hn[0]}, ExportTo: []string{"*"}, Ports: []*networking.ServicePort{httpPort()}, Resolution: networking.ServiceEntry_DNS})
+		}
+		g.addCfg("sidecar", g.meta(gvk.Sidecar, "sc", rootNS), &networking.Sidecar{Egress: []*networking.IstioEgressListener{{Hosts: []string{
+			"default/ext1.example.com", "ns1/ext2.example.com", "default/api.example.com", "ns2/db.example.com", "ns1/www.example.com", "ns2/www.wild.example.com"}}}})
+	}
+}
+
+func init() {
+	// Review round 2 (M4): PILOT_CONVERT_SIDECAR_SCOPE_CONCURRENCY > 1 (case flag `sidecarconc`) converts the Sidecars in
+	// worker goroutines and must keep them in creation order: two Sidecars of one namespace select the same workload
+	// (the older one wins, getSidecarScope), eight more keep the workers busy.
+	witnessMeshes["sidecars-same-workload"] = func(g *mgen) {
+		for i, h := range []string{"ext1.example.com", "ext2.example.com", "api.example.com", "db.example.com"} {
+			g.addCfg("serviceentry", g.meta(gvk.ServiceEntry, "se"+strconv.Itoa(i), "default"), &networking.ServiceEntry{
+				Hosts: []string{h}, Ports: []*networking.ServicePort{httpPort()}, Resolution: networking.ServiceEntry_DNS})
+		}
+		for i := 0; i < 10; i++ {
+			m := g.meta(gvk.Sidecar, "sc"+strconv.Itoa(i), "default")
+			m.CreationTimestamp = t0.Add(time.Duration(i/2) * time.Second)
+			sel := map[string]string{"app": "other" + strconv.Itoa(i)}
+			hosts := []string{"./*"}
+			switch i {
+			case 4:
+				sel, hosts = map[string]string{"app": "a"}, []string{"./ext1.example.com", "./api.example.com"}
+			case 5:
+				sel, hosts = map[string]string{"app": "a"}, []string{"./ext2.example.com", "./db.example.com"}
+			case 7:
+				sel, hosts = map[string]string{"version": "v1"}, []string{"./db.example.com"}
+			}
+			g.addCfg("sidecar", m, &networking.Sidecar{WorkloadSelector: &networking.WorkloadSelector{Labels: sel},
+				Egress: []*networking.IstioEgressListener{{Hosts: hosts}}})
+		}
 	}
 }
 
